@@ -47,6 +47,9 @@ type Shapes interface {
 	Struct(t T) T
 	Arr(a [2]int) [2]string
 	Iface(x interface{}, s fmt.Stringer) interface{}
+	Big(a [32]byte, b [16]int) [32]byte
+	BigOnly(sum [20]byte)
+	Nested(parts ...[]byte) [][]string
 }
 
 type Single interface {
@@ -62,6 +65,16 @@ type Names interface {
 	Close() error
 	Len() int
 	Flush()
+}
+
+// names that differ only in the spelling the template's Exported helper would normalise
+type Twins interface {
+	Id(x int) int
+	ID(x int) int
+	Url() string
+	URL() string
+	Http(req string)
+	HTTP(req string)
 }
 
 type Store[K any, V any] interface {
@@ -107,6 +120,7 @@ var Corpus = []CorpusIface{
 	{Name: "Single", MockName: "SoloMock"},
 	{Name: "Empty"},
 	{Name: "Names"},
+	{Name: "Twins"},
 	{Name: "Store", TypeArgs: "[string, T]", TypeArgsOut: "[string, rtc.T]"},
 	{Name: "Printer", TypeArgs: "[*Str]", TypeArgsOut: "[*rtc.Str]"},
 	{Name: "Num", MockName: "NumberMock", TypeArgs: "[int]", TypeArgsOut: "[int]"},
